@@ -271,20 +271,39 @@ func c05Worker(c *core.Collector, x *Ctx) {
 		v19 := i%2 == 1
 		ntr := 200 + r.Intn(100)
 		serial := uint16(r.Intn(60000))
-		for tr := 0; tr < ntr; tr++ {
-			N := 2 + r.Intn(4)
-			if tr%50 == 49 {
-				N = 40 + r.Intn(30)
-			}
-			id := []uint16{0x0801, 0x0704}[tr%2]
+		mk := func(id uint16, N int) [][]byte {
 			bodies := c05Bodies(r, N, r.Intn(8))
 			order := []int{1}
 			for _, q := range r.Perm(N - 1) {
 				order = append(order, q+2)
 			}
+			var out [][]byte
 			for _, k := range order {
 				serial++
-				fs = append(fs, hookFrame(v19, id, serial, true, uint16(N), uint16(k), bodies[k-1]))
+				out = append(out, hookFrame(v19, id, serial, true, uint16(N), uint16(k), bodies[k-1]))
+			}
+			return out
+		}
+		for tr := 0; tr < ntr; tr++ {
+			N := 2 + r.Intn(4)
+			if tr%50 == 9 {
+				N = 100 + r.Intn(80) // a big transfer early and then regularly: whatever it leaves behind is met by the small ones
+			}
+			a := mk([]uint16{0x0801, 0x0704}[tr%2], N)
+			if tr%4 == 3 && N < 100 {
+				// two transfers of different IDs OVERLAPPING in time: their packets interleaved at random
+				b := mk([]uint16{0x0704, 0x0801}[tr%2], 2+r.Intn(4))
+				for len(a) > 0 || len(b) > 0 {
+					if len(b) == 0 || (len(a) > 0 && r.Bool()) {
+						fs, a = append(fs, a[0]), a[1:]
+					} else {
+						fs, b = append(fs, b[0]), b[1:]
+					}
+				}
+				continue
+			}
+			for _, f := range a {
+				fs = append(fs, f)
 				if r.Chance(1, 9) {
 					serial++
 					fs = append(fs, hookFrame(v19, 0x0002, serial, false, 0, 0, nil))
